@@ -62,6 +62,14 @@ CLAIMED.update({
          "Push part: signed targets with inline secrets or secret_ref versions (overlapping, adjacent, tied valid_from), both selection modes; HMAC recomputed from the request the target received; no valid version => nothing reaches the transport. Inbound part: accepted iff signed with a version valid at the signed timestamp.",
          "window boundaries are hit at whole seconds of the simulated clock (the signed timestamp has second resolution)"),
 })
+CLAIMED.update({
+ "C18": ("fault_enumeration", "deterministic simulation: exhaustive crash-point x post-crash-image enumeration of the config-file replacement over a simulated file system; failed-reload probe twins; reload/request interleaving at every statement with a twin oracle",
+         "(c) W-file, exhaustive: app and mcp writeFileAtomic (and mcp rollback) with os calls rerouted to verifos: a crash before every call x every post-crash image (kill; power loss with any prefix of unsynced directory operations, unsynced data old/new/torn) and EIO/ENOSPC/EACCES at every call; the config path must hold exactly the complete old or new bytes. (a) failed reloads (unreadable, parse, compile, unloadable secret, restart-required) must leave a fixed probe set of requests with identical outcomes. (b) a successful reload interleaved with in-flight requests at every statement of reloadConfig and ServeHTTP (seeded schedules): each outcome must equal the old-configuration or the new-configuration outcome measured on the quiescent node.",
+         "one open known finding: the switch is not atomic (F5). The management-API / MCP write_and_reload rollback paths are not driven (admin-proxy mode needs a real dialer); simfs treats directory operations as persisted in order (any prefix)"),
+ "C20": ("other", "complete enumeration of the finite gate table against a reference written from the MCP specification, plus simulated-file-system confinement variants",
+         "The complete table tool (31 known + 4 unknown) x role x --enable-mutations x --enable-runtime-control x principal (absent/present/blank) is enumerated on the real mcp.Server over in-memory pipes in SQLite mode: tools/list = allowed set, refused calls leave queue listing and config directory unchanged, every mutating call leaves exactly one audit record with all seven fields, a foreign actor is refused; config_apply / management variants (valid write, preview, invalid content, foreign and traversing paths, unknown keys/modes) run over simfs with every touched path logged and the resulting file compiled.",
+         "plain enumeration of a finite table, not schedule exploration; MCP admin-proxy mode, write_and_reload and runtime control beyond the gate are not exercised"),
+})
 NA = {
  "C19": "config Parse/Format/Compile are pure functions of the text: no schedule, clock, I/O or fault for a simulation to decide (DESIGN.md §5)",
 }
